@@ -1,5 +1,6 @@
 import Asts.Driver.Ordinals
 import Asts.Driver.Reconcile
+import Asts.Driver.Sync
 open Asts.Driver
 
 /-- one input line `<case> => <impl observation>`; one output line `<model observation>\t<monitor verdict>\t<branch tag>` -/
@@ -9,6 +10,7 @@ def dispatch (engine : String) (line : String) : String :=
     match engine with
     | "ordinals" => stepOrdinals cas obs
     | "reconcile" => stepReconcile cas obs
+    | "sync" => stepSync cas obs
     | _ => "unknown-engine\tok\tbad"
   | _ => "bad-line\tok\tbad"
 
